@@ -463,7 +463,16 @@ func (r Rule) splitPos(path string) int {
 	if httpserver.CaseSensitivePath {
 		return strings.Index(path, r.SplitPath)
 	}
-	return strings.Index(strings.ToLower(path), strings.ToLower(r.SplitPath))
+	// The result is used as a byte offset into path itself, so path must
+	// not be lower-cased as a whole: for some characters (İ, Ⱥ, the Kelvin
+	// sign) the lower-case form has a different encoded length, which
+	// shifted the split position or put it past the end of path.
+	for i := 0; i+len(r.SplitPath) <= len(path); i++ {
+		if strings.EqualFold(path[i:i+len(r.SplitPath)], r.SplitPath) {
+			return i
+		}
+	}
+	return -1
 }
 
 // AllowedPath checks if requestPath is not an ignored path.
